@@ -14,7 +14,7 @@ Not decided: numerical exactness of results.
 """
 from rules import driver, core, r_err, r_mpt, r_range, ts_bn, r_carry, r_dim
 from rules.core import key, const_val, walk
-from props import common, fixtures
+from props import common, fixtures, memsafe
 
 BN_H = "include/math/big_num.h"
 TRUSTED = ["clang 14 front end + CFG builder", "tool/lcbfacts.cc", "rules/core.py", "python3"]
@@ -357,6 +357,8 @@ def run(rep, tier):
             width_rule(rep, fn, w)
             cc = r_carry.check(rep, fn)
             wide_shift_rule(rep, fn)
+            memsafe.tail_fill_rule(rep, fn)
+            memsafe.unguarded_write_rule(rep, fn)
             nd = r_dim.check(rep, u, [fn], ("BN_DIGIT_BITS", "BN_BIT_LEN", "BN_DIGIT_BIT_CNT"), ("BN_DIGIT_SIZE",))
             if first:
                 n_dim += nd
@@ -374,6 +376,7 @@ def run(rep, tier):
     rep.floor("variable shifts", n_sh, 15)
     rep.floor("carry/borrow stores", n_carry, 5)
     rep.floor("bit/byte dimensioned expressions", n_dim, 20)
+    rep.floor("pure-result three-operand routines", alias_rule(rep, us[cs[0][0]]), 2)
     return driver.finish(
         rep, "other",
         "Static analysis of math/big_num.h in %d configurations (digit widths 8..128, compiler double-width vs portable "
@@ -382,6 +385,63 @@ def run(rep, tier):
         "listed undecided); no promotion-sensitive digit expression in narrow builds; bit counts and byte counts are never added, subtracted or compared with each other and shift amounts are bit counts (R-UNIT dimension check). NOT decided: that results equal "
         "the mathematical values." % len(us),
         ["status functions follow the 0/errno convention", "tabled R-ERR exceptions were confirmed by reading"], TRUSTED)
+
+
+ALIAS_EXCLUDED = {"bn_egcd": "self-declared broken path, outside the claim (properties.jsonl C01)"}
+READERS = ("bn_is_", "bn_cmp", "bn_calc", "bn_get", "bn_ucmp")
+
+
+def alias_rule(rep, u):
+    """permitted aliasing: a three-operand routine whose first parameter is a pure result (dst, a, b) may be called with the
+    result object as its first source (in-place gcd).  After the first write through dst - or through a local that was
+    initialised from it - the first source is not read any more (it may be the object just overwritten).  Where today's
+    tree does not support that pattern for the *second* source, nothing is demanded of it."""
+    n = 0
+    for fn in u.function_list:
+        if fn.relfile() != BN_H or not fn.has_cfg or fn.name in ALIAS_EXCLUDED:
+            continue
+        bp = [p for p in fn.params if u.type(p["t"])["k"] == "ptr" and u.type(u.type(p["t"])["to"]).get("rec") == "big_num_s"]
+        if len(bp) < 3 or fn.params[0] is not bp[0]:
+            continue
+        dst, a = bp[0], bp[1]
+        al = {dst["n"]}
+        for pos, root, x, ps in fn.nodes():
+            if x.get("k") == "decl":
+                for v in x.get("vars", []):
+                    if v.get("init") is not None and core.is_ref(core.strip_casts(v["init"]), name=dst["n"]):
+                        al.add(v["n"])
+        writes, reads_dst, reads_a = [], [], []
+        for pos, root, c, ps in fn.calls():
+            if not c.get("args") or not c.get("fn"):
+                continue
+            for i, arg in enumerate(c["args"]):
+                x = core.strip_casts(arg)
+                if x.get("k") != "ref":
+                    continue
+                if x["n"] in al:
+                    if i == 0 and not c["fn"].startswith(READERS) and c["fn"] != "bn_swap_ptr":
+                        writes.append((pos, c))
+                    else:
+                        reads_dst.append((pos, c))
+                if x["n"] == a["n"]:
+                    reads_a.append((pos, c))
+        if not writes:
+            continue
+        # pure result: every read of dst is dominated by a write through it
+        if any(not any(fn.pos_dominates(wp, rp) for wp, wc in writes) for rp, rc in reads_dst):
+            continue
+        n += 1
+        rep.functions.add(fn.name)
+        desc = "%s(%s, %s, ...): once the result has been written, the first source '%s' (which may be the same object) is not read again" % (
+            fn.name, dst["n"], a["n"], a["n"])
+        bad = None
+        for wp, wc in writes:
+            for rp, rc in reads_a:
+                if rp != wp and fn.pos_dominates(wp, rp):
+                    bad = bad or "%s at line %s writes the result object, %s at line %s then reads '%s': called in place (%s == %s) it sees the overwritten value" % (
+                        wc["fn"], wc.get("ln"), rc["fn"], rc.get("ln"), a["n"], dst["n"], a["n"])
+        (rep.violated if bad else rep.proved)("R-ALIAS", fn, "result-may-be-first-source", desc, bad or "%d writes, %d reads of %s" % (len(writes), len(reads_a), a["n"]))
+    return n
 
 
 def selftest():
